@@ -130,6 +130,8 @@ class Interp:
             return mkint(self.hobj(q_).meta.get("pending_getters", 0))
         if name == "has_own":
             o_ = self.resolve(args[0])
+            if isinstance(o_, VRef) and "own" in self.hobj(o_).meta:
+                return mkbool(args[1].c in self.hobj(o_).meta["own"])
             return mkbool(isinstance(o_, VRef) and args[1].c in self.hobj(o_).fields)
         if name == "maybe":
             # ghost non-determinism: the event may or may not have happened (both cases are explored)
@@ -1011,6 +1013,12 @@ class Interp:
         # logging calls are dropped (DESIGN 2.1 step 2)
         f = node.func
         if isinstance(f, ast.Attribute) and isinstance(f.value, ast.Name) and f.value.id in ("_LOGGER", "logger"):
+            if f.attr in ("isEnabledFor", "getEffectiveLevel"):
+                # the configured log level is arbitrary (but fixed): code guarded by it is explored both ways
+                args_ = [self.ev(a, fr) for a in node.args]
+                if f.attr == "isEnabledFor":
+                    return self.B.opaque_bool(self, "log_enabled_for", [VStr(c=ast.unparse(node.args[0]) if node.args else "")])
+                return self.B.opaque_int(self, "log_level", [], 0, 50)
             self.eval_log_call(node, fr)
             return NONE
         if (isinstance(f, ast.Name) and f.id == "next" and len(node.args) == 2 and isinstance(node.args[0], ast.GeneratorExp)
@@ -1499,6 +1507,8 @@ class Interp:
                     self.call_func_now(VFunc(fn, c.module, cls=c, self_val=base, qualname=f"{c.qualname}.{name}.setter"), [val], {})
                     return
                 self.log_write(("field", base.ref, name))
+                if not getattr(self, "in_havoc", False) and "own" in o.meta:
+                    o.meta["own"].add(name)      # a real store creates / keeps the instance attribute (a contract's havoc does not)
                 o.fields[name] = val
                 return
             if o.kind == "ext":
@@ -1548,6 +1558,17 @@ class Interp:
             return r.c
         return self.path.branch(r.t, "key")
 
+    def pin_key(self, k):
+        """a dictionary key that the path condition pins to one member of its enum is that member (concrete)"""
+        if isinstance(k, VInt) and k.c is None and getattr(k, "enum", None) is not None:
+            try:
+                for m in self.enum_values(k.enum):
+                    if self.path.known(k.as_int() == m):
+                        return VInt(c=m, enum=k.enum)
+            except Exception:       # noqa
+                return k
+        return k
+
     def dict_find(self, d: VRef, k):
         o = self.hobj(d)
         for idx, (kk, vv) in enumerate(o.items):
@@ -1556,6 +1577,7 @@ class Interp:
         return None
 
     def dict_set(self, d, k, v):
+        k = self.pin_key(k)
         o = self.hobj(d)
         if o.kind != "dict":
             return self.B.symdict_set(self, d, o, k, v)
@@ -1567,6 +1589,7 @@ class Interp:
             o.items[idx] = (o.items[idx][0], v)
 
     def dict_get(self, d, k, default=None):
+        k = self.pin_key(k)
         o = self.hobj(d)
         if o.kind != "dict":
             return self.B.symdict_get(self, d, o, k, default)
@@ -2113,8 +2136,24 @@ class Interp:
         return all(isinstance(b, ast.Expr) and isinstance(b.value, ast.Call) and isinstance(b.value.func, ast.Attribute)
                    and isinstance(b.value.func.value, ast.Name) and b.value.func.value.id == "_LOGGER" for b in stmts)
 
+    def _log_args_inert(self, stmts):
+        """the logging calls of these statements have arguments whose evaluation cannot have effects (names, attributes, literals,
+        subscripts, .hex() / len() / str()); anything else - e.g. command.tobytes() - has to be executed"""
+        for b in stmts:
+            for a in list(b.value.args) + [k.value for k in b.value.keywords]:
+                for n in ast.walk(a):
+                    if isinstance(n, ast.Call):
+                        f = n.func
+                        ok = (isinstance(f, ast.Attribute) and f.attr in ("hex", "isoformat", "total_seconds", "upper", "lower", "strip")) or \
+                             (isinstance(f, ast.Name) and f.id in ("len", "str", "repr", "int", "hex", "type", "round"))
+                        if not ok:
+                            return False
+                    if isinstance(n, (ast.Await, ast.NamedExpr, ast.Yield, ast.YieldFrom)):
+                        return False
+        return True
+
     def st_If(self, node, fr):
-        if node.body and self._only_logs(node.body) and self._only_logs(node.orelse):
+        if node.body and self._only_logs(node.body) and self._only_logs(node.orelse) and self._log_args_inert(list(node.body) + list(node.orelse)):
             # both arms only log (dropped): evaluate the test for its raise points, do not fork
             ops.truth(self, self.ev(node.test, fr))
             for b in list(node.body) + list(node.orelse):
